@@ -18,6 +18,7 @@ import (
 	"runtime/debug"
 	"strings"
 	"sync"
+	"sync/atomic"
 	"time"
 
 	"github.com/aptpod/iscp-go/transport"
@@ -394,9 +395,18 @@ type exchangeResult struct {
 	dump     string
 }
 
-// exchange runs all writers and one reader per side; the reader of side i reads exactly as many messages as side
-// 1-i writes. wd is a wall-clock watchdog against hangs only - its firing is inconclusive. After the first error
-// both transports are closed so that nobody waits for data that will never come.
+// sentinel is the message each side sends after all its writers have returned. A transport that keeps order delivers
+// it after everything else, so the reader can stop there: a LOST message then shows as a short read list instead of a
+// reader that waits forever (which only a wall-clock watchdog could end, inconclusively). It is compressible so that
+// it never takes the stored-block path.
+func sentinel(side int) []byte {
+	return append([]byte(fmt.Sprintf("C13-SENTINEL-side-%d-", side)), bytes.Repeat([]byte("z"), 44)...)
+}
+
+// exchange runs all writers and one reader per side. It appends the sentinel as one more single-message writer to
+// p[side]; the reader of the other side reads until a message ends with the sentinel. wd is a wall-clock watchdog
+// against hangs only - its firing is inconclusive. After the first error both transports are closed so that nobody
+// waits for data that will never come.
 func exchange(tr [2]transport.Transport, p *plan, rng *rand.Rand, wd time.Duration) *exchangeResult {
 	res := &exchangeResult{}
 	var mu sync.Mutex
@@ -421,34 +431,47 @@ func exchange(tr [2]transport.Transport, p *plan, rng *rand.Rand, wd time.Durati
 			fail("panic", 0, fmt.Errorf("%v", r), who)
 		}
 	}
+	var dataTotal [2]int
+	for side := 0; side < 2; side++ {
+		dataTotal[side] = p.total(side)
+	}
 	for side := 0; side < 2; side++ {
 		side := side
-		expect := p.total(1 - side)
+		stop := sentinel(1 - side)
+		limit := 2*dataTotal[1-side] + 8
 		wg.Add(1)
 		go func() {
 			defer wg.Done()
 			defer onPanic(fmt.Sprintf("reader side %d", side))
-			for i := 0; i < expect; i++ {
+			for i := 0; i < limit; i++ {
 				m, err := tr[side].Read()
 				if err != nil {
-					fail("read", side, err, fmt.Sprintf("read #%d of %d", i, expect))
+					fail("read", side, err, fmt.Sprintf("read #%d (%d data messages were written)", i, dataTotal[1-side]))
 					return
 				}
 				cp := append([]byte{}, m...)
 				mu.Lock()
 				res.reads[side] = append(res.reads[side], cp)
 				mu.Unlock()
+				if bytes.HasSuffix(cp, stop) {
+					return
+				}
 			}
 		}()
+		var dataWriters sync.WaitGroup
+		var writeFailed atomic.Bool
 		for w := range p[side] {
 			w := w
 			yield := rng.Intn(3) == 0
 			wg.Add(1)
+			dataWriters.Add(1)
 			go func() {
 				defer wg.Done()
+				defer dataWriters.Done()
 				defer onPanic(fmt.Sprintf("writer side %d #%d", side, w))
 				for i, m := range p[side][w] {
 					if err := tr[side].Write(m.Data); err != nil {
+						writeFailed.Store(true)
 						fail("write", side, err, fmt.Sprintf("writer %d message %d (%d bytes, class %s)", w, i, len(m.Data), m.Class))
 						return
 					}
@@ -458,6 +481,20 @@ func exchange(tr [2]transport.Transport, p *plan, rng *rand.Rand, wd time.Durati
 				}
 			}()
 		}
+		sm := sentMsg{Data: sentinel(side), Class: "sentinel", Kind: 1}
+		p[side] = append(p[side], []sentMsg{sm})
+		wg.Add(1)
+		go func() {
+			defer wg.Done()
+			defer onPanic(fmt.Sprintf("sentinel writer side %d", side))
+			dataWriters.Wait()
+			if writeFailed.Load() {
+				return
+			}
+			if err := tr[side].Write(sm.Data); err != nil {
+				fail("write", side, err, "sentinel")
+			}
+		}()
 	}
 	ok, dump := vrun.Watchdog(wd, wg.Wait)
 	mu.Lock() // readers/writers may still be running after a watchdog: take a consistent snapshot
@@ -513,7 +550,7 @@ func firstDiff(a, b []byte) int {
 // checkInterleaving decides whether recv is an order-preserving merge of the per-writer sequences (set-of-states
 // simulation, exact also when different writers send identical messages).
 func checkInterleaving(recv [][]byte, sent [][]sentMsg) (failAt int, states int) {
-	type st [8]uint16
+	type st [10]uint16
 	sd := make([][]digest, len(sent))
 	for w := range sent {
 		for _, m := range sent[w] {
@@ -657,12 +694,12 @@ func judgeDirection(prefix string, d *direction, eff string, wbits int, concurre
 				"websocket:" + eff + ":peer-read-dictionary-prepended", wit("via", prefix, "read_index", failAt, "read_head", head(d.recv[failAt]), "read_len", len(d.recv[failAt]), "detail", extra)}, o
 		}
 		clause := map[string]string{
-			"order": "peer Read returned the messages of one writer in a different order (or one message twice)",
+			"order": "peer Read skipped a message of a writer, returned one twice, or changed the order within one writer",
 			"glued": "peer Read returned two messages glued together",
 			"split": "peer Read returned a part of a message",
 			"bytes": "peer Read returned a byte string that was never written",
 		}[what]
-		return &finding{clause, prefix + ":peer-read-" + what + cc, wit("read_index", failAt, "read_head", head(d.recv[failAt]), "read_len", len(d.recv[failAt]), "detail", extra)}, o
+		return &finding{clause, prefix + ":peer-read-" + map[string]string{"order": "order-or-loss"}[what] + map[string]string{"glued": "glued", "split": "split", "bytes": "bytes"}[what] + cc, wit("read_index", failAt, "read_head", head(d.recv[failAt]), "read_len", len(d.recv[failAt]), "detail", extra)}, o
 	}
 	if len(d.recv) != nSent {
 		return &finding{"peer Read returned fewer messages than were written", prefix + ":peer-read-count" + cc, wit()}, o
